@@ -59,6 +59,13 @@ def run(ctx):
     lays = [l for l in walk.load_layouts(ctx, "MC_Walk_quick.cfg") if l["c"] in (0, 1)]
     ctx.extra["unreachable_table_entries"] = sorted({"%s %s" % (("GET", "SET", "POLL")[l["m"]], l["name"]) for l in lays if not l["reachable"]})
     run_batch(ctx, MODULE, CFG, c02.cases(ctx, lays, ("zero", "one"), prop="C16"), walk.OBSERVERS, sigfn, c02.negfn, chunk=6000)
+    # every declared mode of a message used back to back in ONE interpreter (GET, SET, POLL of the same class/ID, ascending and
+    # descending): a declared (message, mode) must stay usable whichever of its sibling modes was handled before it
+    sib = [l for l in lays if l["c"] == 1 and l["reachable"] and l["pbf"]]
+    for rev in (False, True):
+        order = sorted(sib, key=lambda l: (l["cls"], l["id"], -l["m"] if rev else l["m"], l["name"]))
+        run_batch(ctx, MODULE, CFG, list(c02.cases(ctx, order, ("count",), prop="C16")), walk.OBSERVERS, sigfn, c02.negfn, chunk=6000, parallel=False)
+    ctx.extra["sibling_mode_sequences"] = 2 * len(sib)
     try:
         from . import buildprops
         buildprops.nominal_build(ctx, lays)
